@@ -51,10 +51,9 @@ impl RaftIndexInnerManager {
                 mark_remove: false,
             });
             */
-            let mut buf = Vec::new();
+            //the file starts with the 8 raw bytes of last_applied_log (no length prefix), as write_last_applied_log writes them
+            let mut buf = id_to_bin(0);
             let mut writer = Writer::new(&mut buf);
-            let header_buf = id_to_bin(0);
-            writer.write_bytes(&header_buf)?;
             writer.write_message(&index)?;
             file.seek(std::io::SeekFrom::Start(0)).await?;
             file.write_all(&buf).await?;
